@@ -88,7 +88,7 @@ func Step() int {
 	if s := S; s != nil {
 		return s.Steps
 	}
-	return 0
+	return int(time.Since(FreeStart) / (20 * time.Microsecond))
 }
 
 func (s *Sched) spawn(name string, f func()) *thread {
@@ -295,10 +295,24 @@ func Run(main func(), prefix []int, horizon int, envSince bool, observer func(st
 // ---------------------------------------------------------------------------------------------
 // goroutines
 
+// FreeWG tracks goroutines started while running free, so that the race pass can wait for them.
+var FreeWG sync.WaitGroup
+
+// FreeStart is the reference instant of a free run: Step() then counts 20-microsecond ticks.
+var FreeStart = time.Now()
+
+func goFree(f func()) {
+	FreeWG.Add(1)
+	go func() {
+		defer FreeWG.Done()
+		f()
+	}()
+}
+
 func Go(f func()) {
 	s := S
 	if s == nil {
-		go f()
+		goFree(f)
 		return
 	}
 	if s.killed {
@@ -311,7 +325,7 @@ func Go(f func()) {
 func GoNamed(name string, f func()) {
 	s := S
 	if s == nil {
-		go f()
+		goFree(f)
 		return
 	}
 	if s.killed {
